@@ -52,11 +52,12 @@ pub fn build(n: usize) -> RaftSim {
     let committed = outputs.committed.end_atomic().sim_cluster_output();
     let views = outputs.leader_views.sim_cluster_output();
     let redirected = outputs.redirected.sim_cluster_output();
-    let sim = flow
-        .sim()
-        .skip_consistency_assertions()
-        .with_cluster_size(&cluster, n)
-        .compiled();
+    let sim = super::util::compile_locked(|| {
+        flow.sim()
+            .skip_consistency_assertions()
+            .with_cluster_size(&cluster, n)
+            .compiled()
+    });
     RaftSim {
         sim,
         n,
